@@ -45,9 +45,11 @@ CONCRETE = {   # abstract call kind of Tracker.tla -> concrete model_run calls
     "extbad": [{"entry": "xta", "text": 'import "libc.so.6" { double j0(double x); };\nprocess P() { state A; init A; }\nsystem P;'},
                {"entry": "part", "part": "S_DECLARATION", "text": 'import "libc.so.6" { double y1(double x); };'}],
     # a document that outlives its call, queries parsed against it later, and whole .xta texts in between
-    "keep": [{"keep_doc": True, "entry": "xml_buffer", "text": XML_OK}, {"keep_doc": True, "entry": "xta", "text": XTA_OK}],
+    # (the kept models are long, the .xta texts in between short: the position counter is far ahead when the short text begins)
+    "keep": [{"keep_doc": True, "entry": "xml_buffer", "text": XML_OK.replace("int i; clock x;", "int i; clock x; /* " + "a kept model " * 60 + "*/")},
+             {"keep_doc": True, "entry": "xta", "text": "/* " + "a kept model " * 60 + "*/\n" + XTA_OK}],
     "late": [{"late_queries": ["E<> i > 0", "A[] nosuch > 0", "E<> i +"], "query_builder": "tiga"}, {"late_queries": ["A[] i >= 0"], "query_builder": "property"}],
-    "xtaok": [{"entry": "xta", "text": XTA_OK}, {"entry": "xta", "text": "int q; process Z() { state A; init A; } system Z;"}],
+    "xtaok": [{"entry": "xta", "text": "process Y() { state A; init A; } system Y;"}, {"entry": "xta", "text": "int q; process Z() { state A; init A; } system Z;"}],
     "dimabort": [{"entry": "part", "part": "S_DECLARATION", "text": "int a[int[0,1]][;"}, {"entry": "part", "part": "S_DECLARATION", "text": "typedef int[0,1] t; int a[t][t]["},
                  {"entry": "part", "part": "S_PARAMETERS", "text": "int &a[int[0,1]]["}],
     "array": [{"entry": "part", "part": "S_DECLARATION", "text": "int g[2]; int h[3][4]; int k[2] = {1, 2};"}, {"entry": "xta", "text": "int g[2][3];\n" + XTA_OK},
